@@ -107,10 +107,16 @@ fn typed_grid(i: u64, rng: &mut Rng) -> (J, Vec<J>) {
     let kinds = ["slice", "bytes_vec", "bytes_mut", "cursor_vec", "deque", "seg", "bytes_shared", "cursor_slice"];
     let mk = |rng: &mut Rng, d: &[u8]| J::obj().set("k", *rng.pick(&kinds)).set("hex", hexs(d)).set("n", d.len()).set("seed", 0u64).set("pre", rng.range(0, 3));
     let mut plan = J::obj().set("k", "chain").set("a", mk(rng, &first)).set("b", mk(rng, &second));
-    match rng.below(4) {
+    match rng.below(6) {
         0 => plan = J::obj().set("k", "mutref").set("in", plan),
         1 => plan = J::obj().set("k", "box").set("in", plan),
         2 => plan = J::obj().set("k", "dyn").set("in", plan),
+        3 => {
+            // a Take whose limit is at, just beyond, or exactly the missing bytes beyond what the inner holds
+            let total = pre + have + suf;
+            let lim = total + *rng.pick(&[0usize, 1, short, size]);
+            plan = J::obj().set("k", "take").set("lim", lim).set("in", plan);
+        }
         _ => {}
     }
     let ops = vec![J::obj().set("op", "advance").set("n", pre), J::obj().set("op", "get").set("m", m.as_str()).set("nb", nb)];
